@@ -18,8 +18,8 @@ import (
 )
 
 // VerifHook, when non-nil, is called before each mutating operation with its kind and
-// operands; a non-nil result is returned to the caller instead of performing the operation.
-var VerifHook func(kind, a, b string) error
+// operands (mount: source, target, fstype, flags, options; umount: target, flags); a non-nil result is returned to the caller instead of performing the operation.
+var VerifHook func(kind string, args ...string) error
 
 var verifCount int
 var verifMode string
@@ -34,13 +34,13 @@ func init() {
 	}
 }
 
-func verifPoint(kind, a, b string) error {
+func verifPoint(kind string, args ...string) error {
 	if VerifHook != nil {
-		return VerifHook(kind, a, b)
+		return VerifHook(kind, args...)
 	}
 	if logname := os.Getenv("LAYERCAKE_VERIF_LOG"); logname != "" {
 		if fh, err := os.OpenFile(logname, os.O_WRONLY|os.O_APPEND|os.O_CREATE, 0644); err == nil {
-			fmt.Fprintf(fh, "%d %s %q %q\n", verifCount, kind, a, b)
+			fmt.Fprintf(fh, "%d %s %q\n", verifCount, kind, args)
 			fh.Close()
 		}
 	}
